@@ -1,6 +1,7 @@
 import os
 
 from .props import HDR, standard
+from .c14_e2e import run_e2e
 
 
 def _replace():
@@ -19,10 +20,12 @@ RQ = "C16/zz_verif_c16rq_test.go"
 
 def run(ctx):
     quick = ctx.tier == "quick"
-    n_runq = 500 if quick else 20000
-    n_sync = 500 if quick else 20000
-    n_wp = 200 if quick else 6000
-    n_e2e = 2 if quick else 40
+    n_runq = 500 if quick else 10000
+    n_sync = 500 if quick else 10000
+    n_wp = 200 if quick else 3000
+    n_e2e = 2 if quick else 12
+
+    notes = []
 
     def stages(ctx, mult, suffix, off):
         # (i) scheduler: runQueue and sync call logs against recording stub pool/queue
@@ -42,10 +45,7 @@ def run(ctx):
                   replace=_replace())
         # (iii) end-to-end exploration: real dispatcher against the stub cloud, event log judged in Coq
         if not suffix:
-            ctx.stage("e2e", "lib/dispatchcloud", "dispatchcloud", ["C14/zz_verif_c14e2e_test.go"], "TestVerifC14E2E$",
-                      n_e2e, HDR.format(imports="model.C14_e2e_run"), shard=1,
-                      env={"VERIF_STAGE": "e2e", "VERIF_E2EMODE": "c14", "VERIF_BIG": "0" if quick else "1"}, timeout=2400,
-                      replace=_replace())
+            run_e2e(ctx, n_e2e, "c14", not quick, 0, _replace(), notes)
     return standard(ctx, "C14", ["model/C16_runq_run.vo", "model/C14_sync_run.vo", "model/C14_wp_run.vo", "model/C14_e2e_run.vo"],
                     stages,
                     rule="runq/sync: queue snapshots of 0-16 entries (all states, tied/zero/negative priorities) x scripted pool answers "
@@ -55,6 +55,7 @@ def run(ctx):
                          "instance types with left-over instances/processes/tags; e2e: 40-90 containers (200-500 in thorough), crashing/"
                          "broken/slow VMs, destroy failures, rate limit, external cancels, hold/drain, one restart. distinct by hash of "
                          "the case term; non-trivial = at least one queue/pool call (runq, sync), one StartContainer (wp), any run (e2e)",
+                    extra={"e2e_notes": notes},
                     assumptions=[
                         "environment assumptions of the transition system (guards A1-A6 in coq/model/C14_sys.v): gone instance => no "
                         "processes; a pass starts nothing that still has a process on an undiscovered instance (fixStaleLocks; the stale-lock "
